@@ -720,9 +720,17 @@ impl Blockchain {
     }
 
     fn remove_block_transactions(&self, block_hash: &SaitoHash, mempool: &mut Mempool) {
-        mempool
-            .transactions
-            .retain(|_, tx| tx.validate_against_utxoset(&self.utxoset));
+        // inputs which have fallen out of the genesis window while the transaction was waiting
+        // in the pool can no longer be spent (see Transaction::validate)
+        let latest_block_id = self.get_latest_block_id();
+        let genesis_period = self.genesis_period;
+        mempool.transactions.retain(|_, tx| {
+            tx.validate_against_utxoset(&self.utxoset)
+                && !tx.from.iter().any(|slip| {
+                    slip.amount > 0
+                        && slip.block_id.saturating_add(genesis_period) <= latest_block_id
+                })
+        });
         let block = self.get_block(block_hash).unwrap();
         // we call delete_tx after removing invalidated txs, to make sure routing work is calculated after removing all the txs
         mempool.delete_transactions(&block.transactions);
